@@ -36,6 +36,10 @@ def plan(tier, seed):
     return descs
 
 
+class SplitRefused(ValueError):
+    pass
+
+
 class Skip(Exception):
     pass
 
@@ -201,6 +205,17 @@ def apply_rewrite(kind, st, case, rng, scratch):
             parts = list(p.split_disconnected())
         except ValueError as e:
             if "fully connected" in str(e):
+                # own analysis: functions are connected when they share a name (parameter or output)
+                groups = []
+                for f in p.functions:
+                    names = set(f.parameters) | set(f.output_name if isinstance(f.output_name, tuple) else (f.output_name,))
+                    hit = [g for g in groups if g & names]
+                    for g in hit:
+                        groups.remove(g)
+                        names |= g
+                    groups.append(names)
+                if len(groups) >= 2:
+                    raise SplitRefused(f"split_disconnected refused a pipeline with {len(groups)} disconnected parts: {e}") from None
                 raise Skip from None
             raise
         return State(parts, dict(st.names), list(st.outs), st.conv, st.scope, st.nested)
